@@ -185,7 +185,7 @@ def short(s, n=120):
 def child_kmers(pk, rng, n, R, ktmon, work):
     cases = []
     for i in range(n):
-        cls, s = gen_string(rng) if i % 5 else directed_special(rng)
+        cls, s = (gen_string(rng) if i % 5 else directed_special(rng)) if i % 11 else directed_affix(rng)
         k = (i % 31) + 1
         cases.append({"op": "kmers", "seq": s, "k": k, "_cls": cls})
     core = core_eval(ktmon, work, cases, "kmers")
@@ -217,6 +217,17 @@ def child_kmers(pk, rng, n, R, ktmon, work):
             R.sample({"seq": short(s), "k": k, "tuples": len(got)})
 
 
+AFFIXES = ["\n", "\r\n", "\r", " ", "\t", "\n\n", " \n", "\u00a0", "\u2028", "\x0b", "\x0c", ">", "\ufeff"]
+
+
+def directed_affix(rng, max_len=60):
+    """a valid nucleotide string with foreign whitespace-like characters only at its very end or start
+    (a binding that trims its input - readlines() style - would accept what the core rejects)"""
+    base = gen_nuc(rng, max_len) or "ACGTAC"
+    a = rng.choice(AFFIXES)
+    return "affix", (base + a) if rng.random() < 0.7 else (a + base)
+
+
 def directed_special(rng, max_len=80):
     base = gen_nuc(rng, max_len) or "ACGTACGT"
     p = rng.randrange(len(base) + 1)
@@ -226,7 +237,7 @@ def directed_special(rng, max_len=80):
 def child_min(pk, rng, n, R, ktmon, work):
     cases = []
     for i in range(n):
-        cls, s = gen_string(rng, 160) if i % 5 else directed_special(rng)
+        cls, s = (gen_string(rng, 160) if i % 5 else directed_special(rng)) if i % 11 else directed_affix(rng)
         m = (i % 31) + 1
         w = m + rng.choice([0, 1, rng.randint(0, 20), rng.randint(0, 60)])
         cases.append({"op": "min", "seq": s, "w": w, "m": m, "_cls": cls})
@@ -260,7 +271,7 @@ def child_min(pk, rng, n, R, ktmon, work):
 def child_oligo(pk, rng, n, R, ktmon, work):
     cases = []
     for i in range(n):
-        cls, s = gen_string(rng, 300) if i % 6 else directed_special(rng, 200)
+        cls, s = (gen_string(rng, 300) if i % 6 else directed_special(rng, 200)) if i % 11 else directed_affix(rng, 200)
         k = (i % 8) + 1 if i % 5 == 0 else (i % 6) + 1
         norm = rng.random() < 0.5
         cases.append({"op": "oligo", "seq": s, "k": k, "norm": norm, "_cls": cls})
@@ -335,6 +346,8 @@ def child_cgr(pk, rng, n, R, ktmon, work):
             base = gen_nuc(rng, 40) or "ACGT"
             p = rng.randrange(len(base) + 1)
             cls, s = "confusable", base[:p] + rng.choice(CONFUSABLE) + base[p:]
+        elif i % 7 == 2:
+            cls, s = directed_affix(rng)
         else:
             cls, s = "nuc", gen_nuc(rng)
         cases.append({"op": "cgr", "seq": s, "S": S, "_cls": cls})
@@ -427,15 +440,18 @@ def child_batch(pk, rng, n, R, ktmon, work):
             continue
         if size >= 2:
             # one bad sequence anywhere => ValueError, never a crash and never a partial list
-            bad = list(nseqs)
-            bad[rng.randrange(size)] = "ACGTNACGT"
-            try:
-                cc.vectorise_batch(bad)
-                R.violate("py.batch.cgr_accepts_bad", "CGR vectorise_batch accepted a batch containing a non-nucleotide sequence", case)
-            except ValueError:
-                pass
-            except BaseException as e:  # noqa: BLE001
-                R.violate("py.batch.cgr_wrong_exception", "CGR vectorise_batch raised %r instead of ValueError" % (e,), case)
+            for bad_entry in ["ACGTNACGT", directed_affix(rng)[1], "ACGT" + rng.choice(CONFUSABLE), "\n"]:
+                bad = list(nseqs)
+                bad[rng.randrange(size)] = bad_entry
+                try:
+                    cc.vectorise_batch(bad)
+                    R.violate("py.batch.cgr_accepts_bad", "CGR vectorise_batch accepted a batch containing the non-nucleotide entry %r" % bad_entry, case)
+                    break
+                except ValueError:
+                    pass
+                except BaseException as e:  # noqa: BLE001
+                    R.violate("py.batch.cgr_wrong_exception", "CGR vectorise_batch raised %r instead of ValueError" % (e,), case)
+                    break
         R.sample({"size": size, "threads": threads, "k": k, "S": S})
 
 
@@ -525,6 +541,24 @@ def child_large(pk, rng, n, R, ktmon, work):
                     break
             if ok:
                 R.sample(case)
+        # an ambiguous character within k bytes of the 2^24 offset (block seams of any chunked counting)
+        for k in (2, 4):
+            off = (1 << 24) - rng.randint(0, k + 1)
+            N2 = (1 << 24) + rng.randint(5000, 90000)
+            s2 = "A" * off + "N" + "A" * (N2 - off - 1)
+            oc = pk.OligoComputer(k)
+            header = list(oc.get_header())
+            exp_a = max(0, off - k + 1) + max(0, (N2 - off - 1) - k + 1)
+            R.case(True, ("large-seam", off, N2, k))
+            case = {"seq": "A*%d + N + A*%d" % (off, N2 - off - 1), "k": k, "windows": exp_a}
+            try:
+                raw = oc.vectorise_one(s2, False)
+            except BaseException as e:  # noqa: BLE001
+                R.violate("py.large.exception", "raised %r" % (e,), case)
+                continue
+            ja = header.index("A" * k)
+            if raw[ja] != float(exp_a) or sum(raw) != float(exp_a):
+                R.violate("py.large.seam", "poly-A column %r (sum %r), expected %d" % (raw[ja], sum(raw), exp_a), case)
         # iterators on a long string: count items only (20M tuples would be too slow to list), sample the tail
         it = pk.KmerGenerator("A" * 70000 + "N" + "C" * 70000, 31)
         cnt = sum(1 for _ in it)
